@@ -192,7 +192,43 @@ func c15Handler(c *core.Ctx, name string, id int) gen.Handler {
 	return h
 }
 
+// handler signatures that do not match the event's signature must be rejected, also when the
+// mismatching parameter is anonymous; a program that is accepted must handle the event.
+var c15BadSignatures = []string{
+	"on down _:string y:num", "on down _:num _:string", "on down x:num _:bool", "on input _:num val:string", "on input id:string _:[]string", "on key _:num", "on key _:[]num",
+	"on animate _:string", "on up _:any y:num", "on move _:num y:num z:num", "on key k:string k2:string", "on down x:num",
+}
+
+func c15Signatures(c *core.Ctx) {
+	for _, sig := range c15BadSignatures {
+		src := "n := 0\n" + sig + "\n    n = n + 1\n    print \"handled\" n\nend\nprint \"top\"\n"
+		c.Event("signature_cells", 1)
+		c.Distinct("signature|" + sig)
+		c.Journal(src)
+		name := strings.Fields(sig)[1]
+		ev := evaluator.Event{Name: name}
+		for _, p := range c15Sigs[name] {
+			if p.T.K == gen.Num {
+				ev.Params = append(ev.Params, 5.0)
+			} else {
+				ev.Params = append(ev.Params, "s")
+			}
+		}
+		o := plat.Run(src, plat.Opts{Events: []evaluator.Event{ev, ev}, YieldBudget: 10000})
+		if o.Class == "gopanic" {
+			c.Violation("handler-program-failed:gopanic", sig+": "+firstN(o.GoPanic, 200), src, nil)
+			continue
+		}
+		if o.Class != "parse-error" {
+			c.Violation("signature-mismatch-accepted", fmt.Sprintf("handler `%s` does not match the signature of the %s event but was accepted; delivering the event twice gave %s %q %v", sig, name, o.Class, firstN(o.ErrText, 120), o.Events), src, nil)
+		}
+	}
+}
+
 func c15Run(c *core.Ctx, i int) {
+	if i == 0 {
+		c15Signatures(c)
+	}
 	r := c.Rng
 	c.Event("programs", 1)
 	top := []gen.Stmt{
